@@ -228,3 +228,41 @@ def kf_second_setup(has_type: bool, rows1: int, rows2: int) -> int:
     post: _ == 0
     """
     return second_setup_check(has_type, rows1, rows2)
+
+
+def wide_first_channel_check(rows, w, has_type, u_max):
+    """The first channel of the frame is 2-D (rows x w): without index type INDEX-MAX is the number of ROWS; with an
+    index type the set-up refuses a non-1-D index channel."""
+    with untraced():
+        reset_global_state()
+        ch = ChannelItem('IMG', ChannelSet(), origin_reference=1)
+        fr = FrameItem('FR', FrameSet(), channels=(ch,), origin_reference=1)
+        if has_type:
+            fr.index_type.value = 'BOREHOLE-DEPTH'
+        if u_max:
+            fr.index_max.value = 77.0
+    try:
+        fr._setup_frame_params_from_data(FakeData(npv.VArr2D(rows, w)))
+    except RuntimeError:
+        return 0 if has_type else 1
+    if has_type:
+        return 2
+    if fr.index_min.value != 1 or fr.index_max.value != (77.0 if u_max else rows) or fr.spacing.value != 1:
+        return 3
+    return 0
+
+
+def ob_wide_first_channel(rows: int, w: int, has_type: bool, u_max: bool) -> int:
+    """
+    pre: 1 <= rows <= 1000000 and 2 <= w <= 4096
+    post: _ == 0
+    """
+    return wide_first_channel_check(rows, w, has_type, u_max)
+
+
+def reach_wide_first_channel(rows: int, w: int, has_type: bool, u_max: bool) -> int:
+    """
+    pre: 1 <= rows <= 1000000 and 2 <= w <= 4096
+    post: _ != 0
+    """
+    return wide_first_channel_check(rows, w, has_type, u_max)
